@@ -147,8 +147,8 @@ def classes_overlap(a, b):
 
 
 def map_shape_clean(S, g):
-    """the member-list shape both validators handle: literal-keyed members (occurrence none or ?) and wildcard members
-    `[?*+] <prelude name> => t`; a wildcard member may only be followed by members whose keys it cannot match
+    """the member-list shape both validators handle: literal-keyed members (occurrence none or ?) and table members
+    `* <prelude name> => t` / `+ <prelude name> => t`; a wildcard member may only be followed by members whose keys it cannot match
     (so at most one wildcard per key class, and a text wildcard comes after the text-keyed members); no group choice"""
     def has_gor(x, d=0):
         if x[0] == "gor":
@@ -166,20 +166,25 @@ def map_shape_clean(S, g):
     alts = flat_members(S, g)
     for ms in alts:
         wild_seen = []
+        lit_seen = set()
         for m in ms:
             p = member_parts(m)
             if p is None:
                 return False
             lo, hi, key, cut, val, nm = p
             kc = key_class(key)
+            if kc[0] == "lit":
+                if kc in lit_seen:
+                    return False          # two members with the same literal key
+                lit_seen.add(kc)
             if any(classes_overlap(w, kc) for w in wild_seen):
                 return False
             if is_lit_key(key):
                 if lo > 1 or (hi is not None and hi > 1):
                     return False
             else:
-                if nm:
-                    return False
+                if (lo, hi) not in ((0, None), (1, None)):
+                    return False          # a wildcard member must be a table: occurrence * or +
                 if key is None or key[0] != "ref" or key[1] not in SIMPLE_KEY_TYPES:
                     return False
                 wild_seen.append(kc)
